@@ -2,14 +2,16 @@
  * @file async_runtime_epoll.c
  * @brief Linux epoll-based async runtime implementation
  * 
- * Uses epoll for efficient I/O multiplexing and eventfd for worker completion notifications.
+ * Uses epoll for efficient I/O multiplexing and a non-blocking pipe of fixed-size records for
+ * worker completion notifications. (An eventfd is a counter: the words written by several posts
+ * before one wait are ADDED, so completions were merged into one event with a meaningless key.)
  */
 
 #if defined(__linux__)
 
 #include "async/async_runtime.h"
 #include <sys/epoll.h>
-#include <sys/eventfd.h>
+#include <fcntl.h>
 #include <sys/stat.h>
 #include <unistd.h>
 #include <stdlib.h>
@@ -20,9 +22,17 @@
 
 struct async_runtime_s {
     int epoll_fd;
-    int event_fd;  /* For worker completions */
+    int event_fd;  /* For worker completions: read end of the notification pipe */
+    int post_fd;   /* write end of the notification pipe */
     console_type_t console_type;  /* Detected console type */
 };
+
+/* One notification. Records are far smaller than PIPE_BUF, so each write() is atomic and
+ * records posted by different threads never interleave or merge. */
+typedef struct {
+    uint64_t key;
+    uint64_t data;
+} completion_record_t;
 
 /* Helper functions */
 
@@ -54,13 +64,15 @@ async_runtime_t* async_runtime_init(void) {
         return NULL;
     }
     
-    /* Create eventfd for worker notifications */
-    runtime->event_fd = eventfd(0, EFD_NONBLOCK);
-    if (runtime->event_fd < 0) {
+    /* Create the notification pipe for worker completions and wake-ups */
+    int pfd[2];
+    if (pipe2(pfd, O_NONBLOCK | O_CLOEXEC) < 0) {
         close(runtime->epoll_fd);
         free(runtime);
         return NULL;
     }
+    runtime->event_fd = pfd[0];
+    runtime->post_fd = pfd[1];
     
     /* Add eventfd to epoll */
     struct epoll_event ev = {0};
@@ -68,6 +80,7 @@ async_runtime_t* async_runtime_init(void) {
     ev.data.fd = runtime->event_fd;
     if (epoll_ctl(runtime->epoll_fd, EPOLL_CTL_ADD, runtime->event_fd, &ev) < 0) {
         close(runtime->event_fd);
+        close(runtime->post_fd);
         close(runtime->epoll_fd);
         free(runtime);
         return NULL;
@@ -81,6 +94,9 @@ void async_runtime_deinit(async_runtime_t* runtime) {
     
     if (runtime->event_fd >= 0) {
         close(runtime->event_fd);
+    }
+    if (runtime->post_fd >= 0) {
+        close(runtime->post_fd);
     }
     
     if (runtime->epoll_fd >= 0) {
@@ -117,11 +133,13 @@ int async_runtime_remove(async_runtime_t* runtime, socket_fd_t fd) {
 }
 
 int async_runtime_wakeup(async_runtime_t* runtime) {
-    if (!runtime || runtime->event_fd < 0) return -1;
+    if (!runtime || runtime->post_fd < 0) return -1;
     
-    uint64_t val = 1;
-    ssize_t n = write(runtime->event_fd, &val, sizeof(val));
-    return (n == sizeof(val)) ? 0 : -1;
+    completion_record_t rec = { 0, 1 };  /* key 0: plain wake-up */
+    ssize_t n = write(runtime->post_fd, &rec, sizeof(rec));
+    if (n < 0 && (errno == EAGAIN || errno == EWOULDBLOCK))
+        return 0;  /* pipe full: the loop has plenty of pending notifications and will wake up anyway */
+    return (n == sizeof(rec)) ? 0 : -1;
 }
 
 int async_runtime_wait(async_runtime_t* runtime, io_event_t* events,
@@ -148,18 +166,18 @@ int async_runtime_wait(async_runtime_t* runtime, io_event_t* events,
     for (int i = 0; i < result && event_count < max_events; i++) {
         /* Check if this is the eventfd */
         if (epoll_events[i].data.fd == runtime->event_fd) {
-            /* Drain eventfd and decode worker completions */
-            uint64_t val;
-            while (read(runtime->event_fd, &val, sizeof(val)) == sizeof(val)) {
-                if (event_count < max_events) {
-                    events[event_count].fd = -1;
-                    events[event_count].completion_key = (uintptr_t)(val >> 32);
-                    events[event_count].context = NULL;
-                    events[event_count].event_type = EVENT_READ;
-                    events[event_count].bytes_transferred = (int)(val & 0xFFFFFFFF);
-                    events[event_count].buffer = NULL;
-                    event_count++;
-                }
+            /* Drain the notification pipe: one event per posted record. Records that do not fit
+             * into the caller's array stay in the pipe for the next wait (level-triggered). */
+            completion_record_t rec;
+            while (event_count < max_events &&
+                   read(runtime->event_fd, &rec, sizeof(rec)) == sizeof(rec)) {
+                events[event_count].fd = -1;
+                events[event_count].completion_key = (uintptr_t)rec.key;
+                events[event_count].context = NULL;
+                events[event_count].event_type = EVENT_READ;
+                events[event_count].bytes_transferred = (size_t)rec.data;
+                events[event_count].buffer = NULL;
+                event_count++;
             }
         } else {
             /* Regular I/O event */
@@ -177,13 +195,13 @@ int async_runtime_wait(async_runtime_t* runtime, io_event_t* events,
 }
 
 int async_runtime_post_completion(async_runtime_t* runtime, uintptr_t completion_key, uintptr_t data) {
-    if (!runtime || runtime->event_fd < 0) return -1;
+    if (!runtime || runtime->post_fd < 0) return -1;
     
-    /* Write to eventfd to wake up epoll_wait */
-    uint64_t val = (((uint64_t)completion_key) << 32) | (data & 0xFFFFFFFF);
-    ssize_t n = write(runtime->event_fd, &val, sizeof(val));
+    /* Write one record to the notification pipe to wake up epoll_wait */
+    completion_record_t rec = { (uint64_t)completion_key, (uint64_t)data };
+    ssize_t n = write(runtime->post_fd, &rec, sizeof(rec));
     
-    return (n == sizeof(val)) ? 0 : -1;
+    return (n == sizeof(rec)) ? 0 : -1;
 }
 
 int async_runtime_post_read(async_runtime_t* runtime, socket_fd_t fd, void* buffer, size_t len) {
